@@ -208,6 +208,40 @@ def run(ctx, report):
             if badpos:
                 i = badpos[0]
                 r_reach.finding(f"{cid}.bank_code", f"bank code {code!r}: character {code[i]!r} at index {i} is not of class {field[i]!r}; no valid {cc} IBAN contains it", where)
+    # ------------------------------------------------------------------ R17-found: the lookup code finds listed banks again
+    from .c12 import Harness
+    r_found = report.rule("R17-found", floor=40, what="a bank entry is found again (bank, BIC) from a structure-conforming IBAN built around its bank code: one entry per country, plus every all-zero / boundary code")
+    h = Harness(ctx, reg.banks)
+    picked = {}
+    for e in reg.banks:
+        cc, code = e.get("country_code"), e.get("bank_code")
+        if not code or cc not in reg.countries or lookup_fields.get(cc) is None:
+            continue
+        if cc not in picked or set(code) == {"0"} or set(code) == {"9"}:
+            picked.setdefault((cc, code), e)
+            if cc not in picked:
+                picked[cc] = e
+    todo = sorted(k for k in picked if isinstance(k, tuple))
+    by_key = reg.index_by_bank_code()
+    for cc, code in todo:
+        spec = reg.countries[cc]
+        comps_l = reg.lookup_components(cc)
+        n = spec["bban_length"]
+        bban = ["0"] * n
+        pos = 0
+        for c in comps_l:
+            a, b = spec["positions"][c]
+            bban[a:b] = list(code[pos:pos + (b - a)])
+            pos += b - a
+        if pos != len(code):
+            continue
+        res = h.iban_lookup(cc, "".join(bban))
+        r_found.instance({"country": cc, "bank_code": code} if len(r_found.samples) < 3 else None)
+        first = by_key[(cc, code)][0]
+        if res[0] != "ret" or res[1][1] is not first:
+            got = f"raises {res[1].name}" if res[0] == "exc" else repr(res[1][1])[:120]
+            r_found.finding(f"found:{cc}:{code}", f"the listed bank ({cc}, {code!r}) is not found again from the IBAN {cc}00{''.join(bban)}: .bank gives {got}",
+                            "schwifty/bban.py", witness=f"{cc}00{''.join(bban)}")
     report.not_decided.append("agreement of the bundled tables with SWIFT's registry / the national bank lists (no oracle in the sandbox)")
     report.assumptions.append("registry files are composed as stated in C18 (checked by the C18 rules against registry.py)")
 
